@@ -29,9 +29,9 @@ LEVEL_NOTE = ("The A* search itself IS modelled (Model/AStar.lean: node = (verte
               "bypass edges and direction restrictions, the outside rule, setLongRangeVisibilityFlags = orthogVisPropFlags) and tied by exact edge-set equality with the dumped "
               "Router::visOrthogGraph on every scene (Props/C05OrthVis: every model edge is axis-parallel and enters no routing box that "
               "holds no end point, for all scenes). Not modelled: "
-              "pins, checkpoints, clusters, crossing penalties; a lost optimum shows up only as a "
+              "connectors attached to pins (pin VERTICES are covered by the graph model, class ovis-pins), checkpoints, clusters, crossing penalties; a lost optimum shows up only as a "
               "cost gap on a generated scene. 'An optimal orthogonal path exists on the Hanan grid' is taken as "
-              "the oracle's definition (classical fact, not proved). The estimator theorems are about the model; "
+              "the oracle's definition (classical fact, not proved; for the MODEL graph the straight and the one-bend case are theorems, Props/C05OrthVis hanan_path_exists_partial / hanan_path_exists_L_partial, and every leg along a model line between crossings is a path: line_path_h/_v, crossing_shared). The estimator theorems are about the model; "
               "its tie to the C++ is sampled (complete over sign classes, which is all bends() depends on). "
               "Against the Hanan optimum, optimality is compared for endpoints visible in all four directions "
               "(libavoid's cost model is then exactly length + segmentPenalty*bends and the optimum is attained). "
